@@ -66,16 +66,26 @@ func ValidateAggregateAndProof(ctx context.Context, signedAgg *phase0.SignedAggr
 		return nil, GossipValidatorResult{REJECT, fmt.Errorf("attestation has no participants")}
 	}
 
-	// [IGNORE] The block being voted for (aggregate.data.beacon_block_root) has been seen (via both gossip and non-gossip sources)
-	// (a client MAY queue aggregates for processing once block is retrieved).
-	// TODO
-
 	// [REJECT] The block being voted for (aggregate.data.beacon_block_root) passes validation.
 	if aggVal.IsBadBlock(att.Data.BeaconBlockRoot) {
 		return nil, GossipValidatorResult{REJECT, errors.New("aggregate voted for invalid block")}
 	}
 
 	ch := aggVal.Chain()
+
+	// [IGNORE] The block being voted for (aggregate.data.beacon_block_root) has been seen (via both gossip and non-gossip sources)
+	// (a client MAY queue aggregates for processing once block is retrieved).
+	if _, ok := ch.ByBlock(att.Data.BeaconBlockRoot); !ok {
+		return nil, GossipValidatorResult{IGNORE, errors.New("aggregate voted for unknown block")}
+	}
+
+	// [REJECT] The aggregate attestation's target block is an ancestor of the block named in the LMD vote --
+	// i.e. get_checkpoint_block(store, aggregate.data.beacon_block_root, aggregate.data.target.epoch) == aggregate.data.target.root
+	if unknown, inSubtree := ch.InSubtree(att.Data.Target.Root, att.Data.BeaconBlockRoot); unknown {
+		return nil, GossipValidatorResult{IGNORE, errors.New("unknown block and/or target, cannot check if in subtree")}
+	} else if !inSubtree {
+		return nil, GossipValidatorResult{REJECT, errors.New("block not in subtree of target")}
+	}
 
 	// [REJECT] The current finalized_checkpoint is an ancestor of the block defined
 	// by aggregate.data.beacon_block_root --
